@@ -8,9 +8,11 @@ CONSTANTS
   VarNames <- VN
   Faults <- SemFaults
   OnlyFaulty = TRUE
-  Grow = 50
+  Grow = 90
   Shadowing = FALSE
   ForceAfter = 25
+  Slim = FALSE
+  Balance = TRUE
 CONSTRAINT SizeBound
 INVARIANTS Balanced UsesBound EmitInv
 CHECK_DEADLOCK FALSE
